@@ -171,6 +171,50 @@ class Decision(object):
                 raise Undecidable(norm_stmt(st)[:60])
 
 
+def module_state_rule(index, rep, rid, modules):
+    """Functions that are to be pure functions of their arguments keep no state between calls: no function of the
+    module mutates a module-level mutable container (directly or through a local alias)."""
+    n = 0
+    for mname in modules:
+        mod = index.module(mname)
+        globs = {}
+        for st in mod.tree.body:
+            if isinstance(st, ast.Assign) and len(st.targets) == 1 and isinstance(st.targets[0], ast.Name):
+                v = st.value
+                if isinstance(v, (ast.List, ast.Dict, ast.Set, ast.ListComp, ast.DictComp)) or (isinstance(v, ast.Call) and isinstance(v.func, ast.Name) and v.func.id in ("list", "dict", "set", "defaultdict", "OrderedDict")) \
+                        or (isinstance(v, ast.Call) and isinstance(v.func, ast.Attribute) and v.func.attr in ("defaultdict", "OrderedDict", "deque")):
+                    globs[st.targets[0].id] = st
+        n += len(globs)
+        for g, gst in sorted(globs.items()):
+            bad = []
+            for f in index.functions_in_module(mname):
+                shadowed = g in f.all_params
+                if shadowed:
+                    continue
+                aliases = {g}
+                for a in walk_no_nested(f.node):
+                    if isinstance(a, ast.Assign) and isinstance(a.targets[0], ast.Name) and isinstance(a.value, ast.Name) and a.value.id in aliases:
+                        aliases.add(a.targets[0].id)
+                # a local assignment to the global's own name (without `global`) makes it a local
+                declared_global = any(isinstance(x, ast.Global) and g in x.names for x in walk_no_nested(f.node))
+                local_rebind = any(isinstance(a, ast.Assign) and any(isinstance(t, ast.Name) and t.id == g for t in a.targets) for a in walk_no_nested(f.node)) and not declared_global
+                if local_rebind:
+                    aliases.discard(g)
+                for x in walk_no_nested(f.node):
+                    if isinstance(x, ast.Call) and isinstance(x.func, ast.Attribute) and x.func.attr in MUTATORS and isinstance(x.func.value, ast.Name) and x.func.value.id in aliases:
+                        bad.append((f, x))
+                    elif isinstance(x, (ast.Assign, ast.AugAssign, ast.Delete)):
+                        tg = x.targets if isinstance(x, (ast.Assign, ast.Delete)) else [x.target]
+                        for t in tg:
+                            if isinstance(t, ast.Subscript) and isinstance(t.value, ast.Name) and t.value.id in aliases:
+                                bad.append((f, x))
+                            if isinstance(x, ast.AugAssign) and isinstance(t, ast.Name) and t.id in aliases and declared_global:
+                                bad.append((f, x))
+            rep.check(not bad, rid, mname + "." + g, "module-level container `%s` mutated by %s" % (g, bad[0][0].name if bad else ""), "%s:%d" % (mod.relpath, gst.lineno), "module-level `%s` of %s is never mutated by a function" % (g, mname),
+                      "%s mutates the module-level container `%s` (`%s`): the function then remembers earlier calls, so its result depends on what was computed before in the same process and not only on its arguments" % (bad[0][0].qualname if bad else "", g, norm(bad[0][1])[:60] if bad else ""))
+    return n
+
+
 def stale_item_value_rule(rep, rid, fi):
     """A local computed from the current item of a loop (its definition mentions the loop variable and is not an
     accumulator) must be recomputed for every item: no use of it inside the loop is reachable from the loop head
